@@ -670,7 +670,13 @@ Qed.
 Theorem reachable_wf : forall reg, Reachable reg -> wf_reg reg.
 Proof. induction 1; [apply wf_reg_empty|apply wf_reg_define; assumption]. Qed.
 
-(** * Finding 1: a float in a time slot is accepted however large (it saturates) *)
+(** * After the repairs (fix round): the property's own reading, with no excluded class
+
+    The three places where the pinned code contradicted the property statement were repaired in
+    /repo (8f02d15 float times range-checked, fced25a STORE grammar skips JSON strings, b3737c8
+    tokenizer accepts '+').  The translator now regenerates [time_float_range_checked = true],
+    [store_brace_scan_ignores_strings = false], [tokenizer_rejects_plus = false]; the proofs
+    below compute with these values, so they stop checking if any of the three regresses. *)
 
 Lemma HasPrim_mono : forall (F1 F2 : N -> Prop), (forall b, F1 b -> F2 b) ->
   forall p v, HasPrim F1 p v -> HasPrim F2 p v.
@@ -699,136 +705,47 @@ Proof.
   eapply HasType_mono; eassumption.
 Qed.
 
-(** strengthening needs the float-time predicate only at floats in time-typed slots *)
-Lemma HasPrim_strengthen : forall (F0 FT : N -> Prop) p v,
-  HasPrim F0 p v ->
-  (forall b, v = JNum (Float b) -> time_prim p = true -> FT b) ->
-  HasPrim FT p v.
+(** the repaired source rejects a float time whose floor is not an i64: the code's reading of
+    "a float that is a time" now IS the property's *)
+Lemma code_float_in_range : forall b, CodeFloat b <-> FloatInRange b.
 Proof.
-  intros F0 FT p v H K.
-  inversion H as [| | | | | |v' Ht|v' Ht]; subst; try constructor; try assumption;
-    (inversion Ht; subst; [eapply TV_str; eassumption|apply TV_pos; assumption|apply TV_neg; assumption|
-                           apply TV_float; apply K; reflexivity]).
+  intro b. unfold CodeFloat. split; [intro H; apply H; reflexivity|intros H _; exact H].
 Qed.
 
-Definition FloatTimeSaturates (reg : registry) (cmd : store_cmd) : Prop := known_float_time reg cmd = true.
-
-Theorem accept_iff_strict_outside_known : forall reg cmd,
+(** C06 at full strength: accepted iff conforming under the property's reading, every STORE *)
+Theorem accept_iff_conforms_strict : forall reg cmd,
   wf_reg reg -> wf_payload (sc_payload cmd) ->
-  ~ FloatTimeSaturates reg cmd ->
   (store_ok reg cmd = true <-> Conforms FloatInRange reg cmd).
 Proof.
-  intros reg cmd Hwr Hwp Hk. rewrite (store_ok_iff_conforms reg cmd Hwr Hwp). split.
-  2: { apply Conforms_mono. intros b Hb _. exact Hb. }
-  intros (A & B & sc & obj & Hin & Hp & H1 & H2).
-  split; [exact A|split; [exact B|]]. exists sc, obj. repeat split; try assumption.
-  intros k v Hkv. destruct (H1 k v Hkv) as (ft & Hs & Ht). exists ft. split; [exact Hs|].
-  destruct Hwr as [Hru Hrs]. pose proof (Hrs _ _ Hin) as Hsu.
-  assert (K : forall b p, v = JNum (Float b) -> (ft = FPrim p \/ ft = FOpt p) -> time_prim p = true -> FloatInRange b).
-  { intros b p -> Hft Hp'. unfold FloatTimeSaturates, known_float_time in Hk.
-    rewrite reg_get_aget, (In_aget_unique reg _ sc Hru Hin), Hp in Hk.
-    apply not_true_is_false in Hk.
-    assert (Hf : float_time_oor sc (k, JNum (Float b)) = false).
-    { destruct (float_time_oor sc (k, JNum (Float b))) eqn:E; [|reflexivity].
-      assert (X : existsb (float_time_oor sc) obj = true) by (apply existsb_exists; eexists; split; [exact Hkv|exact E]).
-      congruence. }
-    unfold float_time_oor in Hf. cbn [fst snd] in Hf.
-    rewrite schema_get_aget, (In_aget_unique sc k ft Hsu Hs) in Hf.
-    unfold FloatInRange. apply in_i64_spec.
-    destruct Hft as [-> | ->]; rewrite Hp' in Hf; cbn in Hf; destruct (in_i64 (f64_floor b)); [reflexivity|discriminate|reflexivity|discriminate]. }
-  inversion Ht; subst.
-  - apply HT_prim. eapply HasPrim_strengthen; [eassumption|]. intros b E Hp'. eapply K; eauto.
-  - apply HT_opt_null.
-  - apply HT_opt_some. eapply HasPrim_strengthen; [eassumption|]. intros b E Hp'. eapply K; eauto.
-  - apply HT_enum. assumption.
+  intros reg cmd Hwr Hwp. pose proof (store_ok_iff_conforms reg cmd Hwr Hwp) as E. split.
+  - intro H. apply (Conforms_mono CodeFloat FloatInRange); [intro b; apply code_float_in_range|]. apply E. exact H.
+  - intro C. apply E. apply (Conforms_mono FloatInRange CodeFloat); [intro b; apply code_float_in_range|exact C].
 Qed.
 
-(** the witness: DEFINE t { ts: "datetime" }, STORE t FOR c PAYLOAD {"ts": 1e300} *)
-Definition w_ts : bytes := [116; 115]%N.
-Definition w_t : bytes := [116]%N.
-Definition w_c : bytes := [99]%N.
-Definition w_reg_time : registry :=
-  define_reg [] w_t [(w_ts, SPrim [100; 97; 116; 101; 116; 105; 109; 101]%N)].
-Definition w_cmd_1e300 : store_cmd :=
-  {| sc_type := w_t; sc_ctx := w_c; sc_payload := JObj [(w_ts, JNum (Float 9094988921128908188%N))] |}.
+(** ** The command line adds nothing any more *)
 
-Lemma w_reg_time_val : w_reg_time = [(w_t, [(w_ts, FPrim TTimestamp)])].
-Proof. vm_compute. reflexivity. Qed.
-
-Lemma w_reg_time_reachable : Reachable w_reg_time.
-Proof. apply R_define; [apply R_empty|reflexivity]. Qed.
-
-Theorem float_time_refuted :
-  exists reg cmd, Reachable reg /\ wf_payload (sc_payload cmd) /\
-    store_ok reg cmd = true /\ ~ Conforms FloatInRange reg cmd.
+Lemma text_parses_obj : forall t,
+  text_parses t = match sc_payload (tx_cmd t) with JObj _ => true | _ => false end.
 Proof.
-  exists w_reg_time, w_cmd_1e300. split; [apply w_reg_time_reachable|]. split; [reflexivity|]. split; [vm_compute; reflexivity|].
-  intros (_ & _ & sc & obj & Hin & Hp & H1 & _).
-  rewrite w_reg_time_val in Hin. destruct Hin as [E|[]]. inversion E; subst sc.
-  inversion Hp; subst obj.
-  destruct (H1 w_ts (JNum (Float 9094988921128908188%N))) as (ft & Hs & Ht); [left; reflexivity|].
-  destruct Hs as [E2|[]]. inversion E2; subst ft.
-  inversion Ht as [p v Hpv| | |]; subst. inversion Hpv as [| | | | | |v' Htv|]; subst.
-  inversion Htv as [| | |b Hb]; subst. unfold FloatInRange in Hb. vm_compute in Hb. destruct Hb as [_ Hb]. apply Hb. reflexivity.
+  intro t. unfold text_parses, braces_ok, tokenizer_rejects_plus, store_brace_scan_ignores_strings.
+  cbn [andb negb]. reflexivity.
 Qed.
 
-Example float_time_class_of_witness : FloatTimeSaturates w_reg_time w_cmd_1e300.
-Proof. vm_compute. reflexivity. Qed.
+(** a command line whose payload is a JSON object reaches the handler, whatever its strings
+    and number spellings: the text front is transparent *)
+Theorem text_front_transparent : forall reg t obj,
+  sc_payload (tx_cmd t) = JObj obj -> store_text_ok reg t = store_ok reg (tx_cmd t).
+Proof. intros reg t obj Hp. unfold store_text_ok. rewrite text_parses_obj, Hp. reflexivity. Qed.
 
-(** * Finding 2 and 3: the command-line front rejects conforming payloads *)
-
-Lemma brace_seq_str_nil : forall s, has_brace_str s = false -> brace_seq_str s = [].
-Proof.
-  induction s as [|c s IH]; cbn [has_brace_str existsb brace_seq_str]; intro H; [reflexivity|].
-  apply orb_false_iff in H. destruct H as [Hc Hs]. apply orb_false_iff in Hc. destruct Hc as [H1 H2].
-  rewrite H1, H2. apply IH. exact Hs.
-Qed.
-
-Lemma brace_seq_scalar : forall v, scalar v -> has_brace v = false -> brace_seq v = [].
-Proof.
-  intros v Hs Hb. destruct v; cbn in *; try reflexivity; try contradiction.
-  apply brace_seq_str_nil. exact Hb.
-Qed.
-
-Lemma brace_seq_flat_obj : forall obj,
-  (forall k v, In (k, v) obj -> scalar v) -> has_brace (JObj obj) = false ->
-  brace_seq (JObj obj) = [true; false].
-Proof.
-  intros obj Hsc Hb.
-  assert (G : forall m, (forall k v, In (k, v) m -> scalar v) -> has_brace (JObj m) = false ->
-              (fix go (m : list (bytes * json)) : list bool :=
-                 match m with
-                 | [] => []
-                 | (k, x) :: r => brace_seq_str k ++ brace_seq x ++ go r
-                 end) m = []).
-  { induction m as [|[k x] m IH]; intros Hs Hm; [reflexivity|].
-    cbn [has_brace] in Hm. apply orb_false_iff in Hm. destruct Hm as [Hkx Hr].
-    apply orb_false_iff in Hkx. destruct Hkx as [Hk Hx].
-    rewrite (brace_seq_str_nil k Hk), (brace_seq_scalar x (Hs k x (or_introl eq_refl)) Hx).
-    cbn [app]. apply IH; [intros k' v' Hin; apply (Hs k' v'); right; exact Hin|exact Hr]. }
-  cbn [brace_seq]. rewrite (G obj Hsc Hb). reflexivity.
-Qed.
-
-Definition BraceInString (t : store_text) : Prop := has_brace (sc_payload (tx_cmd t)) = true.
-Definition PlusExponent (t : store_text) : Prop := tx_plus_exp t = true.
-
-Theorem text_accept_iff_conforms_outside_known : forall reg t,
+Theorem text_accept_iff_conforms : forall reg t,
   wf_reg reg -> wf_payload (sc_payload (tx_cmd t)) ->
-  ~ BraceInString t -> ~ PlusExponent t ->
-  (store_text_ok reg t = true <-> Conforms CodeFloat reg (tx_cmd t)).
+  (store_text_ok reg t = true <-> Conforms FloatInRange reg (tx_cmd t)).
 Proof.
-  intros reg t Hwr Hwp Hb Hpl. unfold BraceInString, PlusExponent in *.
-  apply not_true_is_false in Hb. apply not_true_is_false in Hpl.
-  unfold store_text_ok, text_parses. rewrite Hpl, andb_false_r. cbn [negb andb].
-  rewrite <- (store_ok_iff_conforms reg (tx_cmd t) Hwr Hwp). split.
-  - intro H. apply andb_true_iff in H. apply H.
-  - intro H. apply andb_true_iff. split; [|exact H].
-    apply (store_ok_iff_conforms reg (tx_cmd t) Hwr Hwp) in H.
-    destruct (conforms_flat_exact_keys _ _ _ H) as (sc & obj & _ & Hp & Hflat & _).
-    unfold braces_ok. rewrite Hp in *.
-    destruct store_brace_scan_ignores_strings; [|reflexivity].
-    rewrite (brace_seq_flat_obj obj); [reflexivity| |exact Hb].
-    intros k v Hin. apply (Hflat k v Hin).
+  intros reg t Hwr Hwp. unfold store_text_ok. rewrite text_parses_obj.
+  pose proof (accept_iff_conforms_strict reg (tx_cmd t) Hwr Hwp) as E. split.
+  - intro H. apply andb_true_iff in H. apply E. apply H.
+  - intro C. apply andb_true_iff. split; [|apply E; exact C].
+    destruct C as (_ & _ & sc & obj & _ & Hpay & _). rewrite Hpay. reflexivity.
 Qed.
 
 Theorem text_reject_no_trace : forall st t,
@@ -838,11 +755,20 @@ Proof.
   destruct (text_parses t); [|reflexivity]. cbn [andb] in H. apply reject_no_trace. exact H.
 Qed.
 
-(** witnesses: DEFINE t { s: "string", f: "float" };
-    STORE t FOR c PAYLOAD {"s":"}","f":1}      (brace in a string)
-    STORE t FOR c PAYLOAD {"s":"x","f":1e+16}  ('+' in an exponent) *)
+(** ** The former witnesses, now on the right side
+
+    DEFINE t { ts: "datetime" };             STORE t FOR c PAYLOAD {"ts": 1e300}      -> rejected
+    DEFINE t { s: "string", f: "float" };    STORE t FOR c PAYLOAD {"s":"}","f":1}    -> accepted
+                                             STORE t FOR c PAYLOAD {"s":"x","f":1e+16} -> accepted *)
+Definition w_ts : bytes := [116; 115]%N.
+Definition w_t : bytes := [116]%N.
+Definition w_c : bytes := [99]%N.
 Definition w_s : bytes := [115]%N.
 Definition w_f : bytes := [102]%N.
+Definition w_reg_time : registry :=
+  define_reg [] w_t [(w_ts, SPrim [100; 97; 116; 101; 116; 105; 109; 101]%N)].
+Definition w_cmd_1e300 : store_cmd :=
+  {| sc_type := w_t; sc_ctx := w_c; sc_payload := JObj [(w_ts, JNum (Float 9094988921128908188%N))] |}.
 Definition w_reg_text : registry :=
   define_reg [] w_t [(w_s, SPrim [115; 116; 114; 105; 110; 103]%N); (w_f, SPrim [102; 108; 111; 97; 116]%N)].
 Definition w_text_brace : store_text :=
@@ -854,26 +780,16 @@ Definition w_text_plus : store_text :=
                   sc_payload := JObj [(w_s, JStr [120]%N); (w_f, JNum (Float 4846369599423283200%N))] |};
      tx_plus_exp := true |}.
 
+Lemma w_reg_time_reachable : Reachable w_reg_time.
+Proof. apply R_define; [apply R_empty|reflexivity]. Qed.
 Lemma w_reg_text_reachable : Reachable w_reg_text.
 Proof. apply R_define; [apply R_empty|reflexivity]. Qed.
 
-Theorem text_refuted :
-  exists reg t1 t2, Reachable reg /\
-    (wf_payload (sc_payload (tx_cmd t1)) /\ Conforms FloatInRange reg (tx_cmd t1) /\
-     ~ PlusExponent t1 /\ store_text_ok reg t1 = false) /\
-    (wf_payload (sc_payload (tx_cmd t2)) /\ Conforms FloatInRange reg (tx_cmd t2) /\
-     ~ BraceInString t2 /\ store_text_ok reg t2 = false).
-Proof.
-  exists w_reg_text, w_text_brace, w_text_plus. split; [apply w_reg_text_reachable|].
-  pose proof (reachable_wf _ w_reg_text_reachable) as Hwf.
-  split; (split; [reflexivity|split; [|split; [|vm_compute; reflexivity]]]).
-  - apply (accept_iff_strict_outside_known w_reg_text (tx_cmd w_text_brace) Hwf); [reflexivity| |vm_compute; reflexivity].
-    unfold FloatTimeSaturates. vm_compute. discriminate.
-  - unfold PlusExponent. cbn. discriminate.
-  - apply (accept_iff_strict_outside_known w_reg_text (tx_cmd w_text_plus) Hwf); [reflexivity| |vm_compute; reflexivity].
-    unfold FloatTimeSaturates. vm_compute. discriminate.
-  - unfold BraceInString. vm_compute. discriminate.
-Qed.
+Theorem former_witnesses_repaired :
+  store_ok w_reg_time w_cmd_1e300 = false /\
+  store_text_ok w_reg_text w_text_brace = true /\
+  store_text_ok w_reg_text w_text_plus = true.
+Proof. repeat split; vm_compute; reflexivity. Qed.
 
 (** * The hypotheses of the implications above are satisfiable *)
 
@@ -881,21 +797,19 @@ Definition w_cmd_ok : store_cmd :=
   {| sc_type := w_t; sc_ctx := w_c; sc_payload := JObj [(w_s, JStr [120]%N); (w_f, JNum (PosInt 1))] |}.
 
 Example conforms_witness :
-  wf_reg w_reg_text /\ wf_payload (sc_payload w_cmd_ok) /\ ~ FloatTimeSaturates w_reg_text w_cmd_ok /\
+  wf_reg w_reg_text /\ wf_payload (sc_payload w_cmd_ok) /\
   store_ok w_reg_text w_cmd_ok = true /\ Conforms FloatInRange w_reg_text w_cmd_ok.
 Proof.
   pose proof (reachable_wf _ w_reg_text_reachable) as Hwf.
-  assert (K : ~ FloatTimeSaturates w_reg_text w_cmd_ok) by (unfold FloatTimeSaturates; vm_compute; discriminate).
-  split; [exact Hwf|]. split; [reflexivity|]. split; [exact K|]. split; [vm_compute; reflexivity|].
-  apply (accept_iff_strict_outside_known _ _ Hwf); [reflexivity|exact K|vm_compute; reflexivity].
+  split; [exact Hwf|]. split; [reflexivity|]. split; [vm_compute; reflexivity|].
+  apply (accept_iff_conforms_strict _ _ Hwf); [reflexivity|vm_compute; reflexivity].
 Qed.
 
-Example text_outside_known_witness :
-  let t := {| tx_cmd := w_cmd_ok; tx_plus_exp := false |} in
-  ~ BraceInString t /\ ~ PlusExponent t /\ store_text_ok w_reg_text t = true.
+Example text_conforms_witness :
+  Conforms FloatInRange w_reg_text (tx_cmd w_text_brace) /\ Conforms FloatInRange w_reg_text (tx_cmd w_text_plus).
 Proof.
-  cbn zeta. unfold BraceInString, PlusExponent.
-  split; [vm_compute; discriminate|]. split; [vm_compute; discriminate|]. vm_compute. reflexivity.
+  pose proof (reachable_wf _ w_reg_text_reachable) as Hwf.
+  split; apply (text_accept_iff_conforms _ _ Hwf); try reflexivity; vm_compute; reflexivity.
 Qed.
 
 Example reject_witness : store_ok w_reg_text {| sc_type := w_t; sc_ctx := []; sc_payload := JNull |} = false.
